@@ -3,55 +3,66 @@ C20 — property theorems.  All statements quantify over EVERY mudlib configurat
 none), EVERY master policy `pol` (arbitrary functions of the step number and the apply's arguments: approve, refuse,
 odd values, runtime errors, switching at any time) and EVERY history `hist` of (actor, operation) pairs
 (load / clone / seteuid(string|int) / export_uid / destruct / reload_object by the master or any other object,
-existing or not).  `events cfg pol hist` is the model's event trace; the clauses are those of the oracle
+existing or not), EVERY assignment of create() scripts to file names (`pol.script`: ops an object under construction
+performs from inside its create(), nested to any depth) and EVERY fuel (nesting bound of the model).
+`events cfg pol fuel hist` is the model's event trace (one record per segment between two uid snapshots); the clauses are those of the oracle
 `judgeEv` (NV/C20/Spec.lean), which is also run on every trace of the real driver.
 -/
-import NV.C20.LemmasOps
+import NV.C20.LemmasExec
 
 namespace NV.C20
 
-theorem doOp_ok {w : World} (hw : Inv w) {a : Oid} {A : Obj} (hA : getO w.objs a = some A)
-    (cfg : Cfg) (pol : Policy) (i : Nat) (op : Op) :
-    StepOK cfg.bb w.objs (doOp cfg pol i w A op).1 (recOfR a op (doOp cfg pol i w A op)) := by
-  cases op with
-  | seteuidStr s => exact seteuidStr_ok hw hA pol i s
-  | seteuidInt n => exact seteuidInt_ok hw hA n
-  | exportUid t => exact export_ok hw hA t
-  | load p => exact load_ok hw hA cfg pol i p
-  | clone o p => exact clone_ok hw hA cfg pol i o p
-  | dest t => exact dest_ok hw hA t
-  | reload t => exact reload_ok hw hA t
-
-/-- every step of the model keeps the invariant, does not crash and satisfies every oracle clause -/
-theorem step_ok {w : World} (hw : Inv w) (cfg : Cfg) (pol : Policy) (i : Nat) (a : Oid) (op : Op) :
-    StepOK cfg.bb w.objs (step cfg pol i w a op).1 (step cfg pol i w a op).2 := by
-  unfold step
-  cases hA : getO w.objs a with
-  | none => exact actor_missing_ok hw a op hA
-  | some A => exact doOp_ok hw hA cfg pol i op
-
-/-- a trace in which every step is fine relative to the snapshot before it -/
+/-- a trace in which every segment is fine relative to the snapshot before it -/
 def TraceOK (bb : Option Name) : List Obj → List StepRec → Prop
   | _, [] => True
   | P, r :: rs => (∃ w1, StepOK bb P w1 r) ∧ TraceOK bb (r.snap.getD P) rs
 
-theorem runFrom_ok (cfg : Cfg) (pol : Policy) :
-    ∀ (hist : List (Oid × Op)) (i : Nat) (w : World), Inv w → TraceOK cfg.bb w.objs (runFrom cfg pol i w hist) := by
+theorem traceOK_of_chain {bb : Option Name} : ∀ {s : List StepRec} {P Q : List Obj} {rest : List StepRec},
+    Chain bb P s Q → TraceOK bb Q rest → TraceOK bb P (s ++ rest) := by
+  intro s
+  induction s with
+  | nil => intro P Q rest h1 h2; simp only [Chain] at h1; subst h1; simpa using h2
+  | cons r rs ih =>
+    intro P Q rest h1 h2
+    obtain ⟨w1, hr, hc⟩ := h1
+    refine ⟨⟨w1, hr⟩, ?_⟩
+    rw [hr.snap]
+    exact ih hc h2
+
+theorem chain_nocrash {bb : Option Name} : ∀ {s : List StepRec} {P Q : List Obj},
+    Chain bb P s Q → s.any (·.crash) = false := by
+  intro s
+  induction s with
+  | nil => intro P Q _; rfl
+  | cons r rs ih =>
+    intro P Q h
+    obtain ⟨w1, hr, hc⟩ := h
+    simp [hr.nocrash, ih hc]
+
+/-- every step of the model (an op with all the create() scripts nested in it, any fuel) keeps the invariant and
+    emits segments that satisfy every oracle clause -/
+theorem step_ok {w : World} (hw : Inv w) (cfg : Cfg) (pol : Policy) (fuel i : Nat) (a : Oid) (op : Op) :
+    Inv (step cfg pol fuel i w a op).1 ∧
+    Chain cfg.bb w.objs (step cfg pol fuel i w a op).2 (step cfg pol fuel i w a op).1.objs := by
+  have := exec_good cfg pol i fuel false w a op hw
+  exact ⟨this.1, this.2.1⟩
+
+theorem runFrom_ok (cfg : Cfg) (pol : Policy) (fuel : Nat) :
+    ∀ (hist : List (Oid × Op)) (i : Nat) (w : World), Inv w →
+      TraceOK cfg.bb w.objs (runFrom cfg pol fuel i w hist) := by
   intro hist
   induction hist with
   | nil => intro i w _; simp [runFrom, TraceOK]
   | cons x rest ih =>
     intro i w hw
     obtain ⟨a, op⟩ := x
-    have h := step_ok hw cfg pol i a op
-    simp only [runFrom, h.nocrash, Bool.false_eq_true, if_false, TraceOK]
-    refine ⟨⟨_, h⟩, ?_⟩
-    rw [h.snap]
-    exact ih (i + 1) _ h.inv
+    obtain ⟨h1, h2⟩ := step_ok hw cfg pol fuel i a op
+    simp only [runFrom, chain_nocrash h2, Bool.false_eq_true, if_false]
+    exact traceOK_of_chain h2 (ih (i + 1) _ h1)
 
-theorem events_ok (cfg : Cfg) (pol : Policy) (hist : List (Oid × Op)) :
-    TraceOK cfg.bb (World.init cfg).objs (events cfg pol hist) :=
-  runFrom_ok cfg pol hist 0 (World.init cfg) (Inv_init cfg)
+theorem events_ok (cfg : Cfg) (pol : Policy) (fuel : Nat) (hist : List (Oid × Op)) :
+    TraceOK cfg.bb (World.init cfg).objs (events cfg pol fuel hist) :=
+  runFrom_ok cfg pol fuel hist 0 (World.init cfg) (Inv_init cfg)
 
 theorem judgeStep_nil {bb : Option Name} {P : List Obj} {w1 : World} {r : StepRec} (h : StepOK bb P w1 r) :
     judgeStep bb P r = [] := by
@@ -70,20 +81,33 @@ theorem judgeFrom_nil {bb : Option Name} :
 /-- **Top theorem.**  The specification oracle accepts the event trace of every history under every master policy:
     no clause of property C20 (euid, uid, creation, no-euid-no-creation, export preconditions, master asked, every
     object known and with a uid, no crash) is ever violated by the model. -/
-theorem model_satisfies_spec (cfg : Cfg) (pol : Policy) (hist : List (Oid × Op)) :
-    judgeEv cfg.root cfg.bb (events cfg pol hist) = [] :=
-  judgeFrom_nil _ _ 0 (events_ok cfg pol hist)
+theorem model_satisfies_spec (cfg : Cfg) (pol : Policy) (fuel : Nat) (hist : List (Oid × Op)) :
+    judgeEv cfg.root cfg.bb (events cfg pol fuel hist) = [] :=
+  judgeFrom_nil _ _ 0 (events_ok cfg pol fuel hist)
 
 /-- non-vacuity: a history on which objects are created, seteuid is approved and refused, export succeeds -/
 example :
     let pol : Policy := { cf := fun _ n => if n = "/c20/bb/a" then .str "Backbone" else .str "u1",
-                          vs := fun _ _ u => if u = "zed" then .int 0 else .int 1 }
-    let tr := events { root := "Root", bb := some "Backbone" } pol
+                          vs := fun _ _ u => if u = "zed" then .int 0 else .int 1, script := fun _ _ => [] }
+    let tr := events { root := "Root", bb := some "Backbone" } pol 3
       [("m", .load ⟨"u1", "a"⟩), ("u1a", .seteuidStr "zed"), ("u1a", .seteuidStr "u1"), ("u1a", .load ⟨"bb", "a"⟩),
        ("m", .load ⟨"u1", "b"⟩), ("u1a", .exportUid "u1b"), ("u1b", .clone "c1" ⟨"u1", "a"⟩)]
-    tr.length = 7 ∧ (tr.map (·.res)) =
-      [some (.oid "u1a"), some (.int 0), some (.int 1), some (.oid "bba"), some (.oid "u1b"), some (.int 1),
-       some (.err .noEuidClone)] := by decide
+    (tr.filterMap (·.res)) =
+      [.oid "u1a", .int 0, .int 1, .oid "bba", .oid "u1b", .int 1, .err .noEuidClone] := by decide
+
+/-- non-vacuity with nested creation: `u1a` (euid u1) loads `/c20/u2/a`, which gets uid u2 / euid 0 and whose
+    create() tries to load `/c20/u2/b` and to clone: both are refused inside the still running outer load; after
+    its own approved seteuid the nested load succeeds -/
+example :
+    let pol : Policy := { cf := fun _ n => if n = "/c20/u1/a" then .str "u1" else .str "u2", vs := fun _ _ _ => .int 1,
+                          script := fun _ k => if k = "/c20/u2/a" then
+                            [.load ⟨"u2", "b"⟩, .clone "c1" ⟨"u2", "b"⟩, .seteuidStr "u2", .load ⟨"u2", "b"⟩] else [] }
+    let tr := events { root := "Root", bb := some "Backbone" } pol 3
+      [("m", .load ⟨"u1", "a"⟩), ("u1a", .seteuidStr "u1"), ("u1a", .load ⟨"u2", "a"⟩)]
+    (tr.map (fun r => (r.actor, r.res))) =
+      [("m", none), ("m", some (.oid "u1a")), ("u1a", some (.int 1)), ("u1a", none),
+       ("u2a", some (.err .noEuidLoad)), ("u2a", some (.err .noEuidClone)), ("u2a", some (.int 1)),
+       ("u2a", none), ("u2a", some (.oid "u2b")), ("u1a", some (.oid "u2a"))] := by decide
 
 /-- clause `c` holds at every step of a trace, each step judged against the snapshot before it -/
 def holdsAlong (c : List Obj → StepRec → Bool) : List Obj → List StepRec → Prop
@@ -107,9 +131,9 @@ abbrev snap0 (cfg : Cfg) : List Obj := (World.init cfg).objs
 /-- An object's euid differs from the snapshot before the step only if the object was (re)created in this step
     (creation clause) or the step is ITS OWN seteuid: `seteuid(0)` giving 0, or `seteuid(s)` for which the master's
     valid_seteuid was asked about exactly this object and `s`, approved, giving `s`. -/
-theorem euid_changes_only_by_own_approved_seteuid (cfg : Cfg) (pol : Policy) (hist : List (Oid × Op)) :
-    holdsAlong euidClause (snap0 cfg) (events cfg pol hist) :=
-  holdsAlong_of_traceOK _ (fun _ _ _ h => h.euid) _ _ (events_ok cfg pol hist)
+theorem euid_changes_only_by_own_approved_seteuid (cfg : Cfg) (pol : Policy) (fuel : Nat) (hist : List (Oid × Op)) :
+    holdsAlong euidClause (snap0 cfg) (events cfg pol fuel hist) :=
+  holdsAlong_of_traceOK _ (fun _ _ _ h => h.euid) _ _ (events_ok cfg pol fuel hist)
 
 /-- readable form of the euid clause for one step -/
 theorem euidClause_explained {P S : List Obj} {r : StepRec} (h : euidClause P r = true) (hs : r.snap = some S)
@@ -147,9 +171,9 @@ theorem euidClause_explained {P S : List Obj} {r : StepRec} (h : euidClause P r 
 /-- An object's uid differs from the snapshot before the step only if it was (re)created in this step or the step is
     an export_uid onto it that returned 1, by an actor whose euid was not 0, while the object's own euid was 0; the
     new uid is that actor's euid. -/
-theorem uid_changes_only_at_creation_or_export (cfg : Cfg) (pol : Policy) (hist : List (Oid × Op)) :
-    holdsAlong uidClause (snap0 cfg) (events cfg pol hist) :=
-  holdsAlong_of_traceOK _ (fun _ _ _ h => h.uid) _ _ (events_ok cfg pol hist)
+theorem uid_changes_only_at_creation_or_export (cfg : Cfg) (pol : Policy) (fuel : Nat) (hist : List (Oid × Op)) :
+    holdsAlong uidClause (snap0 cfg) (events cfg pol fuel hist) :=
+  holdsAlong_of_traceOK _ (fun _ _ _ h => h.uid) _ _ (events_ok cfg pol fuel hist)
 
 /-- readable form of the uid clause for one step -/
 theorem uidClause_explained {P S : List Obj} {r : StepRec} (h : uidClause P r = true) (hs : r.snap = some S)
@@ -182,26 +206,26 @@ theorem uidClause_explained {P S : List Obj} {r : StepRec} (h : uidClause P r = 
     answer = backbone uid and creator with an euid, uid = euid = the creator's euid.  Without a creator_file call
     only reload_object (uid kept, euid 0) and the late initialisation of an object whose creation the master's
     error aborted (uid "NONAME", euid 0) announce an object. -/
-theorem creation_only_as_master_decides (cfg : Cfg) (pol : Policy) (hist : List (Oid × Op)) :
-    holdsAlong (creationClause cfg.bb) (snap0 cfg) (events cfg pol hist) :=
-  holdsAlong_of_traceOK _ (fun _ _ _ h => h.creation) _ _ (events_ok cfg pol hist)
+theorem creation_only_as_master_decides (cfg : Cfg) (pol : Policy) (fuel : Nat) (hist : List (Oid × Op)) :
+    holdsAlong (creationClause cfg.bb) (snap0 cfg) (events cfg pol fuel hist) :=
+  holdsAlong_of_traceOK _ (fun _ _ _ h => h.creation) _ _ (events_ok cfg pol fuel hist)
 
 /-- An actor other than the master whose euid is 0 causes no creator_file call (no object is created on its
     behalf) and its clone_object never returns an object. -/
-theorem no_euid_no_creation (cfg : Cfg) (pol : Policy) (hist : List (Oid × Op)) :
-    holdsAlong noEuidClause (snap0 cfg) (events cfg pol hist) :=
-  holdsAlong_of_traceOK _ (fun _ _ _ h => h.noeuid) _ _ (events_ok cfg pol hist)
+theorem no_euid_no_creation (cfg : Cfg) (pol : Policy) (fuel : Nat) (hist : List (Oid × Op)) :
+    holdsAlong noEuidClause (snap0 cfg) (events cfg pol fuel hist) :=
+  holdsAlong_of_traceOK _ (fun _ _ _ h => h.noeuid) _ _ (events_ok cfg pol fuel hist)
 
 /-- export_uid returns 1 only from a caller with euid ≠ 0 onto a target with euid 0; a caller with euid 0 gets the
     error "Illegal to export uid 0". -/
-theorem export_preconditions (cfg : Cfg) (pol : Policy) (hist : List (Oid × Op)) :
-    holdsAlong exportClause (snap0 cfg) (events cfg pol hist) :=
-  holdsAlong_of_traceOK _ (fun _ _ _ h => h.exportc) _ _ (events_ok cfg pol hist)
+theorem export_preconditions (cfg : Cfg) (pol : Policy) (fuel : Nat) (hist : List (Oid × Op)) :
+    holdsAlong exportClause (snap0 cfg) (events cfg pol fuel hist) :=
+  holdsAlong_of_traceOK _ (fun _ _ _ h => h.exportc) _ _ (events_ok cfg pol fuel hist)
 
 /-- every seteuid(string) of an existing object asks the master, about exactly that object and string -/
-theorem seteuid_always_asks_master (cfg : Cfg) (pol : Policy) (hist : List (Oid × Op)) :
-    holdsAlong askedClause (snap0 cfg) (events cfg pol hist) :=
-  holdsAlong_of_traceOK _ (fun _ _ _ h => h.asked) _ _ (events_ok cfg pol hist)
+theorem seteuid_always_asks_master (cfg : Cfg) (pol : Policy) (fuel : Nat) (hist : List (Oid × Op)) :
+    holdsAlong askedClause (snap0 cfg) (events cfg pol fuel hist) :=
+  holdsAlong_of_traceOK _ (fun _ _ _ h => h.asked) _ _ (events_ok cfg pol fuel hist)
 
 theorem traceOK_mem {bb : Option Name} :
     ∀ (trace : List StepRec) (P : List Obj), TraceOK bb P trace → ∀ r ∈ trace, ∃ P' w1, StepOK bb P' w1 r := by
@@ -217,17 +241,17 @@ theorem traceOK_mem {bb : Option Name} :
 
 /-- The model never reaches the crash outcome (NULL uid dereferenced by getuid) - with the two `fix:` commits;
     before them both witnesses of notes/C20.md crashed the real driver. -/
-theorem no_crash (cfg : Cfg) (pol : Policy) (hist : List (Oid × Op)) :
-    ∀ r ∈ events cfg pol hist, r.crash = false := by
+theorem no_crash (cfg : Cfg) (pol : Policy) (fuel : Nat) (hist : List (Oid × Op)) :
+    ∀ r ∈ events cfg pol fuel hist, r.crash = false := by
   intro r hr
-  obtain ⟨_, _, h⟩ := traceOK_mem _ _ (events_ok cfg pol hist) r hr
+  obtain ⟨_, _, h⟩ := traceOK_mem _ _ (events_ok cfg pol fuel hist) r hr
   exact h.nocrash
 
 /-- "An object must have a uid": every object in every snapshot has a non-NULL uid -/
-theorem every_object_has_uid (cfg : Cfg) (pol : Policy) (hist : List (Oid × Op)) :
-    ∀ r ∈ events cfg pol hist, ∀ S, r.snap = some S → ∀ e ∈ S, e.uid ≠ none := by
+theorem every_object_has_uid (cfg : Cfg) (pol : Policy) (fuel : Nat) (hist : List (Oid × Op)) :
+    ∀ r ∈ events cfg pol fuel hist, ∀ S, r.snap = some S → ∀ e ∈ S, e.uid ≠ none := by
   intro r hr S hs e he
-  obtain ⟨_, w1, h⟩ := traceOK_mem _ _ (events_ok cfg pol hist) r hr
+  obtain ⟨_, w1, h⟩ := traceOK_mem _ _ (events_ok cfg pol fuel hist) r hr
   have : S = w1.objs := by
     have := h.snap
     rw [hs] at this
@@ -238,10 +262,9 @@ theorem every_object_has_uid (cfg : Cfg) (pol : Policy) (hist : List (Oid × Op)
 /-- non-vacuity of `no_crash` / `every_object_has_uid`: the history that crashed the unrepaired driver (master
     drops its euid, then loads an object whose creator_file answer is the backbone uid) now yields uid "Backbone" -/
 example :
-    let pol : Policy := { cf := fun _ _ => .str "Backbone", vs := fun _ _ _ => .int 1 }
-    (events { root := "Root", bb := some "Backbone" } pol [("m", .seteuidInt 0), ("m", .load ⟨"bb", "a"⟩)]).map (·.snap) =
-      [some [{ oid := "m", name := "/c20/master", uid := some "Root", euid := none }],
-       some [{ oid := "bba", name := "/c20/bb/a", uid := some "Backbone", euid := none },
-             { oid := "m", name := "/c20/master", uid := some "Root", euid := none }]] := by decide
+    let pol : Policy := { cf := fun _ _ => .str "Backbone", vs := fun _ _ _ => .int 1, script := fun _ _ => [] }
+    ((events { root := "Root", bb := some "Backbone" } pol 1 [("m", .seteuidInt 0), ("m", .load ⟨"bb", "a"⟩)]).map
+        (fun r => r.snap.map (fun S => S.map (fun o => (o.oid, o.uid, o.euid))))).getLast? =
+      some (some [("bba", some "Backbone", none), ("m", some "Root", none)]) := by decide
 
 end NV.C20
